@@ -5,7 +5,6 @@
 
 from __future__ import annotations
 
-import contextlib
 import logging
 from collections.abc import Callable, Iterator
 from io import IOBase
@@ -245,13 +244,17 @@ class StreamSession:
             except (pa.ArrowInvalid, OSError, StopIteration):
                 return
         _MAX_DRAIN = 10_000
-        with contextlib.suppress(StopIteration, pa.ArrowInvalid, OSError):
-            for _ in range(_MAX_DRAIN):
-                # An error batch is not the end of the output stream: keep
-                # reading up to its EOS marker, or the leftover bytes are taken
-                # for the start of the next call's answer.
-                with contextlib.suppress(RpcError):
-                    _read_batch_with_log_check(self._output_reader, self._on_log, self._external_config, shm=self._shm)
+        for _ in range(_MAX_DRAIN):
+            # Neither an error batch nor an exception from the caller's
+            # on_log callback is the end of the output stream: keep reading
+            # up to its EOS marker, or the leftover bytes are taken for the
+            # start of the next call's answer.
+            try:
+                _read_batch_with_log_check(self._output_reader, self._on_log, self._external_config, shm=self._shm)
+            except (StopIteration, pa.ArrowInvalid, OSError):
+                break
+            except Exception:
+                continue
 
     def cancel(self) -> None:
         """Signal the server to stop processing and discard pending work.
@@ -287,13 +290,17 @@ class StreamSession:
             except (pa.ArrowInvalid, OSError, StopIteration):
                 return
         _MAX_DRAIN = 10_000
-        with contextlib.suppress(StopIteration, pa.ArrowInvalid, OSError):
-            for _ in range(_MAX_DRAIN):
-                # An error batch is not the end of the output stream: keep
-                # reading up to its EOS marker, or the leftover bytes are taken
-                # for the start of the next call's answer.
-                with contextlib.suppress(RpcError):
-                    _read_batch_with_log_check(self._output_reader, self._on_log, self._external_config, shm=self._shm)
+        for _ in range(_MAX_DRAIN):
+            # Neither an error batch nor an exception from the caller's
+            # on_log callback is the end of the output stream: keep reading
+            # up to its EOS marker, or the leftover bytes are taken for the
+            # start of the next call's answer.
+            try:
+                _read_batch_with_log_check(self._output_reader, self._on_log, self._external_config, shm=self._shm)
+            except (StopIteration, pa.ArrowInvalid, OSError):
+                break
+            except Exception:
+                continue
 
     def __enter__(self) -> StreamSession:
         """Enter context manager."""
@@ -412,7 +419,27 @@ class _RpcProxy:
                     object.__setattr__(transport, "_stream_opened", True)
                 header = None
                 if info.header_type is not None:
-                    header = _read_stream_header(transport.reader, info.header_type, ipc_validation, on_log, ext_cfg)
+                    try:
+                        header = _read_stream_header(
+                            transport.reader, info.header_type, ipc_validation, on_log, ext_cfg
+                        )
+                    except (RpcError, *_TRANSPORT_ERRORS):
+                        raise
+                    except Exception:
+                        # The caller's on_log callback raised while the header
+                        # was read.  The server has accepted the stream and now
+                        # waits for its input, and no session will be returned
+                        # to close it: end the stream here, or the next request
+                        # would be consumed as this stream's input.
+                        StreamSession(
+                            transport.writer,
+                            transport.reader,
+                            on_log,
+                            external_config=ext_cfg,
+                            ipc_validation=ipc_validation,
+                            shm=shm,
+                        ).close()
+                        raise
                 session = StreamSession(
                     transport.writer,
                     transport.reader,
